@@ -436,6 +436,21 @@ func c13a(c *Ctx) {
 				var os []valueOrigin
 				if src != nil {
 					os = c.originsOf(fn, src, nil, 2)
+				} else if strings.HasPrefix(s.want, "Literal=") {
+					// the whole token is handed back by a helper: look at the Literal it gives it
+					for _, o := range c.originsOf(fn, st.Val, nil, 2) {
+						_, f := c.valueWith(o.fn, o.v)
+						if f == nil || f["Literal"] == "" {
+							os = nil
+							break
+						}
+						if lv := c.valueOfTerm(o.fn, f["Literal"]); lv != nil {
+							os = append(os, c.originsOf(o.fn, lv, nil, 1)...)
+						} else {
+							os = nil
+							break
+						}
+					}
 				}
 				_ = want
 				all := len(os) > 0
